@@ -61,8 +61,11 @@ Section CpuStep.
 
   (* an instruction boundary at which an instruction (not an interrupt dispatch) starts *)
   Definition starts (s : cpu) (b : B) : Prop :=
-    is_finished s = true /\ fault s = None /\ halted s = false /\ stopped s = false /\ eip s = false /\
+    is_finished s = true /\ fault s = None /\ halted s = false /\ stopped s = false /\
     fst (check_interrupts T B bime bpending s b) = None.
+
+  (* a pending EI is committed after the dispatch decision and before the opcode fetch *)
+  Definition commit (s : cpu) (b : B) : B := if eip s then bset_ime b true else b.
 
   Definition wf (s : cpu) : Prop :=
     ra s < 256 /\ rb s < 256 /\ rc s < 256 /\ rd s < 256 /\ re s < 256 /\ rh s < 256 /\ rl s < 256 /\
@@ -99,17 +102,17 @@ Section CpuStep.
 
   (* the first machine cycle of an instruction *)
   Lemma cycle_start s b u : starts s b ->
-    nth_error (cur (fst (mfetch (set_eip false s) b))) 0 = Some u ->
-    cyc (fst (mfetch (set_eip false s) b)) = 0%nat ->
+    nth_error (cur (fst (mfetch (set_eip false s) (commit s b)))) 0 = Some u ->
+    cyc (fst (mfetch (set_eip false s) (commit s b))) = 0%nat ->
     mcycle (s, b) =
-      (set_cyc (S (cyc (fst (mexec u (fst (mfetch (set_eip false s) b)) (snd (mfetch (set_eip false s) b))))))
-               (fst (mexec u (fst (mfetch (set_eip false s) b)) (snd (mfetch (set_eip false s) b)))),
-       snd (mexec u (fst (mfetch (set_eip false s) b)) (snd (mfetch (set_eip false s) b)))).
+      (set_cyc (S (cyc (fst (mexec u (fst (mfetch (set_eip false s) (commit s b))) (snd (mfetch (set_eip false s) (commit s b)))))))
+               (fst (mexec u (fst (mfetch (set_eip false s) (commit s b))) (snd (mfetch (set_eip false s) (commit s b))))),
+       snd (mexec u (fst (mfetch (set_eip false s) (commit s b))) (snd (mfetch (set_eip false s) (commit s b))))).
   Proof.
-    intros (Hfin & Hf & Hh & Hst & He & Hci) Hu Hc.
+    intros (Hfin & Hf & Hh & Hst & Hci) Hu Hc.
     unfold cycle. cbn [fst snd]. rewrite Hf, Hfin. unfold next.
-    rewrite (check_none s b Hci Hh). cbn [fst snd]. rewrite He.
-    assert (E: halted (set_eip false s) || stopped (set_eip false s) = false) by (cbn; rewrite Hh, Hst; reflexivity).
+    rewrite (check_none s b Hci Hh). cbn [fst snd]. fold (commit s b).
+    assert (E: halted (set_eip false s) || stopped (set_eip false s) = false) by (destruct s; cbn in *; rewrite Hh, Hst; reflexivity).
     rewrite E. cbn [fst snd]. rewrite Hc in *. rewrite Hu, Hcor. reflexivity.
   Qed.
 
@@ -117,11 +120,11 @@ Section CpuStep.
      opcode byte is [op] (and, on the CB page, whose second byte is [op2]), running the model to the next boundary
      agrees with the documented semantics in architectural state, bus, data accesses with their cycles, and cycle count *)
   Definition op_ok (op : N) : Prop :=
-    forall s b, starts s b -> wf s -> byte_bus -> snd (brd b (pc s)) = op ->
-      agrees (run_instr s b) (spec_instr B brd bwr bset_ime bime bpending (arch_of s) b).
+    forall s b, starts s b -> wf s -> byte_bus -> snd (brd (commit s b) (pc s)) = op ->
+      agrees (run_instr s b) (spec_instr B brd bwr bset_ime bime bpending (arch_of (set_eip false s)) (commit s b)).
 
   Definition cb_ok (op2 : N) : Prop :=
-    forall s b, starts s b -> wf s -> byte_bus -> snd (brd b (pc s)) = 203 ->
-      snd (brd (fst (brd b (pc s))) (add16 (pc s) 1)) = op2 ->
-      agrees (run_instr s b) (spec_instr B brd bwr bset_ime bime bpending (arch_of s) b).
+    forall s b, starts s b -> wf s -> byte_bus -> snd (brd (commit s b) (pc s)) = 203 ->
+      snd (brd (fst (brd (commit s b) (pc s))) (add16 (pc s) 1)) = op2 ->
+      agrees (run_instr s b) (spec_instr B brd bwr bset_ime bime bpending (arch_of (set_eip false s)) (commit s b)).
 End CpuStep.
